@@ -8,7 +8,7 @@ SINGLE, COMPLETE, AVERAGE, WEIGHTED, WARD, CENTROID, MEDIAN = range(7)
 # concretisation.  The sparse kernel builds its index with linfa's default leaf size (16), so for n <= 16 the tree
 # is a single leaf whose border distance is only ever compared with +inf / an empty result heap: the concretised
 # value never reaches a branch or an output, so the exploration stays sound.
-BALL_OK = ("concretised",)
+BALL_OK = ("concretised", "inexact")  # inexact: the ball tree's sphere bound carries a slack of a few ulps (/repo d8cfbed), see registry/c07.py
 
 quick = [job("c06.hier_guard", secs=10)]
 
